@@ -14,7 +14,7 @@ import ast
 from ..core import AnalysisError
 from ..cfg import CFG
 from ..flow import Defs, deps
-from ..pyfront import dotted, call_name, kwarg, params, src, walk_no_nested, const
+from ..pyfront import params, dotted, call_name, kwarg, params, src, walk_no_nested, const
 from .. import formats as F
 
 EXPLANATION = (
@@ -26,7 +26,7 @@ NOT_DECIDED = ["behaviour at an actual crash point (process kill) - only the ord
                "that the back-end libraries (PyTables, netCDF4, xdrfile) persist data on flush/sync",
                "equality of file content between k calls and one call (run-time)"]
 ASSUMPTIONS = ["PyTables EArray.append and netCDF variable assignment validate the per-frame shape themselves (atom count) before storing"]
-FLOORS = {"C19-R1": 11, "C19-R2": 9, "C19-R3": 3, "C19-R4": 4, "C19-R5": 6, "C19-R6": 6}
+FLOORS = {"C19-R1": 11, "C19-R2": 9, "C19-R3": 3, "C19-R4": 4, "C19-R5": 6, "C19-R6": 6, "C19-R7": 4}
 
 WRITERS = ["h5", "nc", "xtc", "trr", "dcd", "dtr", "mdcrd", "xyz", "lammpstrj", "gro", "pdb", "lh5", "rst7", "ncrst"]
 IO_ERRORS = ("IOError", "OSError", "RuntimeError", "MemoryError", "NotImplementedError", "ImportError")
@@ -153,6 +153,8 @@ def check(ctx):
     ctx.rule("C19-R3", "a default time/step synthesised from the per-call frame count depends on the writer's frame counter")
     ctx.rule("C19-R4", "position counters are advanced only after the frame data was handed to the backend")
     ctx.rule("C19-R5", "header / initialisation calls are guarded by a first-write flag which is cleared on the same path")
+    ctx.rule("C19-R7", "in the frame loop of a text writer every use of per-frame data is indexed by the loop variable; nothing reduced over the frames of one call is used inside the loop")
+    _r7(ctx)
     ctx.rule("C19-R6", "HDF5.write passes flush() on every normal exit; flush() reaches the backend sync; the reporter flushes after write")
 
     for key in WRITERS:
@@ -404,7 +406,7 @@ def _first_write_flags(ctx):
 
 
 def _r3(ctx):
-    for key in ("xtc", "trr", "h5", "nc", "dcd", "dtr"):
+    for key in ("xtc", "trr", "h5", "nc", "dcd", "dtr", "gro", "mdcrd", "xyz", "lammpstrj"):
         rel, cls = F.rel_cls(key)
         fn = F.method(ctx, key, "write")
         q = cls + ".write"
@@ -416,7 +418,8 @@ def _r3(ctx):
                 if tgt in ("time", "step", "times"):
                     found = True
                     s = src(n.value)
-                    ok = pos is not None and pos.split(".")[-1] in s
+                    # the writer's own frame count must enter the default; a class without a write-side counter cannot synthesise one
+                    ok = pos is not None and pos.split(".")[-1] in s and key not in ("gro", "mdcrd", "xyz", "lammpstrj")
                     ctx.decide(ok, "C19-R3", n, rel, q, "default %s" % tgt, "offset by the writer position",
                                "`%s = %s` restarts at 0 in every call: writing the frames in k calls gives %s 0..,0.. instead of 0..n" % (tgt, s, tgt))
         if not found:
@@ -474,6 +477,31 @@ def _r5(ctx):
                "footer written once at close", "footer is written from %s" % callers)
 
 
+def _mode_set(node):
+    """{'w', ...} for `self.mode == 'w'` / `self.mode in ('w', 'a')`, else None"""
+    if isinstance(node, ast.Compare) and dotted(node.left) in ("self.mode", "self._mode") and len(node.ops) == 1:
+        c = node.comparators[0]
+        if isinstance(node.ops[0], ast.Eq) and isinstance(c, ast.Constant):
+            return {c.value}
+        if isinstance(node.ops[0], ast.In) and isinstance(c, (ast.Tuple, ast.List, ast.Set)):
+            return {e.value for e in c.elts if isinstance(e, ast.Constant)}
+    return None
+
+
+def _write_modes(fn):
+    """modes in which write() proceeds: the tuple handed to _check_mode(self.mode, (...)) or compared with self.mode"""
+    if fn is None:
+        return set()
+    for n in walk_no_nested(fn):
+        if isinstance(n, ast.Call) and (call_name(n) or "").endswith("_check_mode") and len(n.args) >= 2 and isinstance(n.args[1], (ast.Tuple, ast.List)):
+            return {e.value for e in n.args[1].elts if isinstance(e, ast.Constant)}
+    for n in walk_no_nested(fn):
+        ms = _mode_set(n) if isinstance(n, ast.Compare) else None
+        if ms:
+            return ms
+    return set()
+
+
 def _r6(ctx):
     # HDF5.write: flush on every normal exit after the appends
     rel, cls = F.rel_cls("h5")
@@ -494,7 +522,24 @@ def _r6(ctx):
             return any(d == sname or (not sname.startswith("self.") and d.split(".")[-1] == sname) for sname in syncs)
         sy = {n for n in c2.nodes() if any(isinstance(c, ast.Call) and is_sync(c) for e in c2.own_exprs(n) for c in ast.walk(e))}
         # a closed file has nothing to flush: paths through the false edge of an is-open test are exempt
-        open_tests = {n for n in c2.nodes() if c2.kind[n] == "test" and any(w in src(c2.stmt[n].test) for w in ("_open", "_closed", "is_open"))}
+        wmodes = _write_modes(F.method(ctx, key, "write", required=False))
+        open_tests = set()
+        for n in c2.nodes():
+            if c2.kind[n] != "test":
+                continue
+            t = c2.stmt[n].test
+            conj = t.values if isinstance(t, ast.BoolOp) and isinstance(t.op, ast.And) else [t]
+            pure = True
+            for cj in conj:
+                tx = src(cj)
+                if tx in ("self._open", "self.is_open", "not self._closed", "not self.closed", "self._handle is not None"):
+                    continue
+                ms = _mode_set(cj)
+                if ms is not None and wmodes and wmodes <= ms:
+                    continue        # a mode test that admits every mode in which write() is allowed
+                pure = False
+            if pure and any(w in src(t) for w in ("_open", "_closed", "is_open", "_handle")):
+                open_tests.add(n)
         ok = bool(sy) and c2.exit not in c2.reachable(c2.entry, removed=sy | open_tests)
         ctx.decide(ok, "C19-R6", f, rel, cls + ".flush", "reaches %s" % "/".join(syncs), "every normal exit of an open file passes the backend sync",
                    "flush() can return without calling %s" % " or ".join(syncs))
@@ -517,3 +562,116 @@ def _r6(ctx):
                 ok = False
     ctx.decide(ok, "C19-R6", fn, rel, "_BaseReporter.report", "flush after write", "every report flushes the file when the format offers flush()",
                "report() can return after write() without flushing")
+
+
+# ---------------------------------------------------------------------------------------------------
+# R7: inside the frame loop of a streaming write(), per-frame data is used per frame
+# ---------------------------------------------------------------------------------------------------
+_FRAME_PARAMS = {"xyz", "coordinates", "positions", "cell_lengths", "cell_angles", "unitcell_vectors", "unitcell_lengths", "unitcell_angles", "time", "box"}
+_ARRAY_KEEP = {"ensure_type", "in_units_of", "np.asarray", "np.array", "np.ascontiguousarray", "np.require", "cast_indices", "np.empty_like", "np.zeros_like", "np.ones_like", "np.full_like"}
+
+
+def _r7(ctx):
+    for key in ("gro", "mdcrd", "xyz", "lammpstrj"):
+        rel, cls = F.rel_cls(key)
+        fn = F.method(ctx, key, "write")
+        q = cls + ".write"
+        fparams = [p for p in params(fn) if p in _FRAME_PARAMS]
+        loops = []
+        for n in walk_no_nested(fn):
+            if isinstance(n, ast.For) and isinstance(n.target, ast.Name) and isinstance(n.iter, ast.Call) and call_name(n.iter) == "range":
+                t = src(n.iter)
+                if any(("%s.shape[0]" % p) in t or ("len(%s)" % p) in t for p in fparams) or "n_frames" in t:
+                    loops.append(n)
+        if not loops:
+            ctx.undecided("C19-R7", fn, rel, q, "frame loop", "no `for i in range(<number of frames>)` loop found in write()")
+            continue
+        for lp in loops:
+            iv = lp.target.id
+            # classify names bound before the loop: ARRAY (still one entry per frame) or SUMMARY (reduced over frames)
+            kind = {p: "ARRAY" for p in fparams}
+            for st in walk_no_nested(fn):
+                if not isinstance(st, ast.Assign) or st.lineno >= lp.lineno or not isinstance(st.targets[0], ast.Name):
+                    continue
+                tgt = st.targets[0].id
+                k = _data_kind(st.value, kind)
+                if k is not None:
+                    kind[tgt] = k
+                elif tgt in kind and tgt not in fparams:
+                    del kind[tgt]
+            bad = []
+            n_uses = 0
+            for n in ast.walk(lp):
+                if isinstance(n, ast.Name) and isinstance(n.ctx, ast.Load) and n.id in kind and n.id != iv:
+                    par = _parent_chain(lp, n)
+                    n_uses += 1
+                    if kind[n.id] == "SUMMARY":
+                        bad.append((n, "`%s` was reduced over the frames of this call before the loop" % n.id))
+                        continue
+                    # ARRAY: must be subscripted by the loop variable, or be used for shape / len / is-None only
+                    ok = False
+                    for anc in par:
+                        if isinstance(anc, ast.Subscript) and anc.value is n and any(isinstance(x, ast.Name) and x.id == iv for x in ast.walk(anc.slice)):
+                            ok = True
+                        if isinstance(anc, ast.Attribute) and anc.value is n and anc.attr in ("shape", "ndim", "dtype", "size"):
+                            ok = True
+                        if isinstance(anc, ast.Call) and call_name(anc) == "len" and anc.args and anc.args[0] is n:
+                            ok = True
+                        if isinstance(anc, ast.Compare) and anc.left is n and any(isinstance(c, ast.Constant) and c.value is None for c in anc.comparators):
+                            ok = True
+                    if not ok:
+                        bad.append((n, "`%s` holds one entry per frame but is used without the loop index `%s`" % (n.id, iv)))
+            if n_uses == 0:
+                ctx.undecided("C19-R7", lp, rel, q, "frame loop at line %d" % lp.lineno, "no per-frame data is used in the loop")
+                continue
+            ctx.decide(not bad, "C19-R7", bad[0][0] if bad else lp, rel, q, "frame loop at line %d: %d uses of per-frame data, all indexed by `%s`" % (lp.lineno, n_uses, iv), "",
+                       "%s: what is written for frame %s then depends on the other frames of the same write() call, so writing the frames in several calls gives a different file than writing them at once"
+                       % ("; ".join(w for _, w in bad[:2]), iv))
+
+
+def _data_kind(value, kind):
+    """ARRAY when value keeps one entry per frame of an ARRAY name, SUMMARY when it reduces one, None when it does not depend on frame data"""
+    names = [n for n in ast.walk(value) if isinstance(n, ast.Name) and n.id in kind]
+    if not names:
+        return None
+    # shape / len / is-None uses do not read the data
+    datareads = []
+    for n in names:
+        meta = False
+        for anc in ast.walk(value):
+            if isinstance(anc, ast.Attribute) and anc.value is n and anc.attr in ("shape", "ndim", "dtype", "size"):
+                meta = True
+            if isinstance(anc, ast.Call) and call_name(anc) == "len" and anc.args and anc.args[0] is n:
+                meta = True
+            if isinstance(anc, ast.Compare) and anc.left is n and any(isinstance(c, ast.Constant) and c.value is None for c in anc.comparators):
+                meta = True
+        if not meta:
+            datareads.append(n)
+    if not datareads:
+        return None
+    if any(kind[n.id] == "SUMMARY" for n in datareads):
+        return "SUMMARY"
+    if isinstance(value, ast.Name):
+        return kind[value.id]
+    if isinstance(value, ast.Call) and (call_name(value) in _ARRAY_KEEP or (call_name(value) or "").split(".")[-1] in ("astype", "copy")) and value.args and isinstance(value.args[0], ast.Name) and value.args[0].id in kind:
+        return "ARRAY"
+    if isinstance(value, ast.BinOp) and any(isinstance(s_, ast.Name) and s_.id in kind for s_ in (value.left, value.right)):
+        return "ARRAY"          # element-wise arithmetic keeps the frame axis
+    if isinstance(value, ast.IfExp):
+        ks = [_data_kind(value.body, kind), _data_kind(value.orelse, kind)]
+        return "SUMMARY" if "SUMMARY" in ks else ("ARRAY" if "ARRAY" in ks else None)
+    return "SUMMARY"
+
+
+def _parent_chain(root, node):
+    """ancestors of node inside root (nearest first)"""
+    parents = {}
+    for p in ast.walk(root):
+        for c in ast.iter_child_nodes(p):
+            parents[id(c)] = p
+    out = []
+    cur = node
+    while id(cur) in parents:
+        cur = parents[id(cur)]
+        out.append(cur)
+    return out
